@@ -541,33 +541,11 @@ func (m *Mast) SeekIter(ctx context.Context, k interface{}, f func(interface{}, 
 	if err != nil {
 		return err
 	}
-	keyLayer, err := m.keyLayer(k, m.branchFactor)
-	if err != nil {
-		return fmt.Errorf("layer: %w", err)
-	}
-	options := findOptions{
-		targetLayer:   uint8min(keyLayer, m.height),
-		currentHeight: m.height,
-	}
-	node, i, err := node.findNode(ctx, m, k, &options)
-	if err != nil {
-		return err
-	}
-	if i >= len(node.Key) ||
-		options.targetLayer != options.currentHeight {
+	err = node.seekIter(ctx, k, f, m)
+	if err == nil || err == ErrIterDone {
 		return nil
 	}
-	for i := len(options.path) - 1; i >= 0; i-- {
-		entry := options.path[i]
-		err = entry.node.seekIter(ctx, entry.linkIndex, f, m)
-		if err == ErrIterDone {
-			return nil
-		}
-		if err != nil {
-			return err
-		}
-	}
-	return nil
+	return err
 }
 
 // LoadMast loads a tree from a remote store. The root is loaded
